@@ -188,12 +188,12 @@ Proof.
                                str_in n names = true -> str_in n l = false).
     { intros n l Hl Hn. destruct (str_in n l) eqn:E; [|reflexivity]. exfalso.
       pose proof (str_in_sub _ _ _ Hl E) as Q. apply str_in_In in Hn.
-      rewrite (existsb_false_forall _ _ Hst n Hn) in Q. discriminate. }
+      rewrite (existsb_false_forall _ _ Hst n Hn) in Q. discriminate Q. }
     pose proof (DT_struct env) as Hds. cbn [forallb] in Hds. apply andb_true_iff in Hds as [Hws Hds].
     rewrite str_in_app, Nd1, orb_false_r, nodupb_app, Hnd, Nd2. cbn [andb].
     apply andb_true_iff. split.
     + apply negb_true_iff. destruct (str_in n_ws names) eqn:E; [|reflexivity]. exfalso.
-      apply str_in_In in E. rewrite (existsb_false_forall _ _ Hst _ E) in Hws. discriminate.
+      apply str_in_In in E. rewrite (existsb_false_forall _ _ Hst _ E) in Hws. discriminate Hws.
     + apply forallb_forall. intros n Hn. apply negb_true_iff. apply Hdis; [exact Hds|]. apply str_in_In. exact Hn.
   - (* no empty alternative *)
     rewrite !wf_noempty_app, Wn, (noempty_fields _ _ Hall), tail_c_noempty.
